@@ -1,5 +1,6 @@
 """Per-property configuration for ./check: runs, offline oracles, coverage floors, evidence text."""
 import os
+import time
 import subprocess
 
 import models
@@ -56,6 +57,12 @@ def _simd(monitor):
     """the monitor once more on the nightly portable-SIMD backend (tiny corpus in the quick tier, quick corpus in the
     thorough tier): BLAKE2b-based code has a second implementation there that no stable build compiles"""
     return lambda tier: [dict(build="ni-simd", monitor=monitor, tier=("quick" if tier == "thorough" else "tiny"))]
+
+
+
+def _nirel(monitor, **kw):
+    """the nightly monitor once more in a plain release build (tiny corpus in the quick tier, quick corpus in the thorough tier)"""
+    return lambda tier: [dict(build="ni-rel", monitor=monitor, tier=("quick" if tier == "thorough" else "tiny"), **kw)]
 
 
 def _rel(monitor):
@@ -759,7 +766,7 @@ PROPS["C14"] = dict(
                "data must have exactly the advertised rights, be locked iff the type says so, be fenced by guard pages, keep its contents, and after the last drop nothing stays locked or protected. "
                "Bounded-exhaustive within the depth, sampling beyond.",
     level_note="Linux only (mprotect/mlock paths); the kernel's /proc reporting is trusted after a start-up self-check against a region the harness maps, protects and locks itself. An Err from an operation the OS refuses is a result, not a violation.",
-    runs=lambda tier: [dict(build="ni", monitor="c14"), dict(kind="custom", fn=_valgrind("c14"))] + ([dict(kind="custom", fn=_asan("c14"))] if tier == "thorough" else []),
+    runs=lambda tier: [dict(build="ni", monitor="c14")] + _nirel("c14")(tier) + [dict(kind="custom", fn=_valgrind("c14"))] + ([dict(kind="custom", fn=_asan("c14"))] if tier == "thorough" else []),
     floors=_c14_floors,
     rule="a case is one operation sequence (container, length, constructor, ops); distinct by enumeration index; sequences containing an operation the type system does not offer in the reached state are pruned "
          "at that point and not counted as distinct; evaluations = individual model-vs-kernel comparisons",
@@ -785,6 +792,61 @@ def _c15_floors(m, tier):
     return out
 
 
+def _vfree(ctx):
+    """C15, build without hooks: /verif/harness/nohooks (dryoc with the nightly feature only, plain release profile) runs container
+    histories while posix_memalign/free defined in the executable search every released or retained block for the secret pattern"""
+    import subprocess
+    from concurrent.futures import ThreadPoolExecutor
+    m = ctx["m"]
+    env = dict(ctx["env"])
+    tdir = os.path.join(ctx["cache"], "target-nohooks")
+    env["CARGO_TARGET_DIR"] = tdir
+    crate = os.path.join(ctx["root"], "harness", "nohooks")
+    lock = os.path.join(crate, "Cargo.lock")
+    if not os.path.exists(lock) and os.path.exists("/repo/Cargo.lock"):
+        import shutil
+        shutil.copy("/repo/Cargo.lock", lock)
+    t0 = time.time()
+    b = subprocess.run(["cargo", "+nightly", "build", "--release", "--offline"], cwd=crate, env=env, stdout=subprocess.PIPE, stderr=subprocess.STDOUT, text=True)
+    if b.returncode != 0:
+        m.problems.append("no-hooks release build failed: " + b.stdout[-500:].replace("\n", " | "))
+        return
+    ctx["builds_used"]["nohooks-release"] = round(time.time() - t0, 1)
+    binary = os.path.join(tdir, "release", "vfree")
+    nsh = 8
+    reps = 1 if ctx["tier"] == "quick" else 24
+
+    def one(i):
+        p = subprocess.run([binary, str(i), str(nsh), str(reps)], env=ctx["env"], stdout=subprocess.PIPE, stderr=subprocess.PIPE, text=True, timeout=1500)
+        return i, p.returncode, p.stdout, p.stderr[-300:]
+    with ThreadPoolExecutor(max_workers=nsh) as ex:
+        res = list(ex.map(one, range(nsh)))
+    meta = dict(seed=ctx["seed"], tier=ctx["tier"], monitor="vfree", build="nohooks-release", shard=-1, nshards=nsh)
+    hist = rec = freed = 0
+    for i, rc, out, err in res:
+        saw = False
+        for line in out.splitlines():
+            f = line.split("\t")
+            if f[0] == "HIT" and len(f) >= 4:
+                cont = f[1].split(":")[0]
+                m.add_viol("C15|%s|%s|build_without_hooks" % (cont, f[3]), 1, {"history": f[1], "detail": f[2:], "observer": "posix_memalign/free interposer; dryoc built without verif_hooks, release profile"}, meta)
+            elif f[0] == "SUMMARY":
+                saw = True
+                kv = dict(x.split("=") for x in f[1:])
+                hist += int(kv["histories"]); rec += int(kv["recorded"]); freed += int(kv["freed"])
+                if int(kv["table_full"]):
+                    m.problems.append("vfree: allocation table full")
+        if rc != 0 or not saw:
+            m.add_viol("C15|build_without_hooks|history_process_died", 1, {"shard": i, "rc": rc, "stderr": err}, meta) if rc < 0 else m.problems.append("vfree shard %d ended abnormally rc=%s %s" % (i, rc, err))
+    m.evals += hist
+    d = m.cov.setdefault("build_without_hooks", {})
+    d["histories"] = hist
+    d["blocks_given_to_free_and_searched"] = freed
+    if freed == 0:
+        m.problems.append("vfree: no page-aligned block was observed at free()")
+    ctx["extra_cov"]["build_without_hooks"] = dict(histories=hist, page_aligned_allocations=rec, searched_at_free=freed)
+
+
 PROPS["C15"] = dict(
     level="exploration",
     technique="runtime invariant monitoring at a hook: the page-aligned allocator reports (address, size, non-zero byte count) immediately before free(); histories of create / fill with zero-free secret / resize / clone / lock / protect / drop are executed and every observed release must have a zero count; valgrind memcheck over a reduced corpus",
@@ -793,7 +855,7 @@ PROPS["C15"] = dict(
                "precomputed keys, locked signed messages, LockedPwHash, heap DryocBox) run with every container filled with a zero-free pattern; the hook inspects the whole released allocation including spare capacity. "
                "A history that never observes a release is inconclusive, not held. A second observer that does not depend on the hook (posix_memalign / free defined in the monitor executable) searches every page-aligned block given to free(), and every block still allocated after all containers were dropped, for the secret pattern.",
     level_note="The hook sits after all wiping the crate does and before free(); leaks (allocations never released) are outside the property and only counted.",
-    runs=lambda tier: [dict(build="ni", monitor="c15"), dict(build="ni", monitor="c15", tier="quick", opts={"mlockall": "1"}, nshards=8), dict(kind="custom", fn=_valgrind("c15"))] + ([dict(kind="custom", fn=_asan("c15"))] if tier == "thorough" else []),
+    runs=lambda tier: [dict(build="ni", monitor="c15")] + _nirel("c15")(tier) + [dict(build="ni", monitor="c15", tier="quick", opts={"mlockall": "1"}, nshards=8), dict(kind="custom", fn=_valgrind("c15")), dict(kind="custom", fn=_vfree)] + ([dict(kind="custom", fn=_asan("c15"))] if tier == "thorough" else []),
     floors=_c15_floors,
     rule="a case is one history (operation sequence or named container history); distinct by enumeration index / (length, variant); evaluations count histories plus individual release events inspected",
     assumptions=["wiping registers, stack copies or swap is outside the property"],
@@ -825,7 +887,7 @@ PROPS["C19"] = dict(
                "the cleanliness checks still run while unwinding.",
     level_note="The fault is injected by defining `mlock` in the monitor executable (it forwards to the real system call when not failing), which is equivalent to an LD_PRELOAD interposer but also works under valgrind; "
                "root ignores RLIMIT_MEMLOCK in this sandbox, so the limit itself cannot be used.",
-    runs=lambda tier: [dict(build="ni", monitor="c19")] + ([dict(kind="custom", fn=_ASAN("c19"))] if tier == "thorough" else []),
+    runs=lambda tier: [dict(build="ni", monitor="c19")] + _nirel("c19")(tier) + ([dict(kind="custom", fn=_ASAN("c19"))] if tier == "thorough" else []),
     floors=_c19_floors,
     exhaustive=True,
     rule="a case is (operation sequence, fault position k); distinct by sequence index; the enumeration over k is exhaustive per sequence; evaluations = model-vs-kernel comparisons and outcome checks",
@@ -862,7 +924,7 @@ PROPS["C16"] = dict(
                "a bincode byte string (byte-string path), through serde's value deserializers and through TryFrom / from_slices, and must be rejected unless the count is exactly N. "
                "The count enumeration is exhaustive within 0..=2N; payloads and keys are sampled. Vec-backed boxes are additionally rebuilt with 1..64 bytes of spare capacity and after a JSON round trip; to_vec / to_bytes / into_vec must still give the wire bytes.",
     level_note="HeapByteArray<N> and LockedRO<...> only implement Serialize; their encodings are compared with the stack type's. Vec<u8> containers have no fixed length to enforce and are only round-tripped.",
-    runs=lambda tier: [dict(build="st", monitor="c16"), dict(build="ni", monitor="c16", opts=NI_ONLY)] + ([dict(kind="custom", fn=_MIRI("c16"))] if tier == "thorough" else []),
+    runs=lambda tier: [dict(build="st", monitor="c16"), dict(build="ni", monitor="c16", opts=NI_ONLY)] + _rel("c16")(tier) + ([dict(kind="custom", fn=_MIRI("c16"))] if tier == "thorough" else []),
     floors=_c16_floors,
     rule="a case is (object type, containers, payload length, encoding) or (fixed-length type, decoding path, element count); distinct by payload length / type; evaluations = individual comparisons",
     assumptions=[],
